@@ -221,13 +221,14 @@ type c05Region struct {
 }
 
 var c05Lay struct {
-	used       int
-	regions    []c05Region
-	backToBack bool
-	capMode    int // 0, 1: to the end of the arena; 2: exactly len; 3: len + 1..15
-	capExtra   int
-	swap       bool   // c05.msgenc: the message in front of the key
-	snap       []byte // image of the arena up to used + guard, taken by c05Arm just before the call
+	used        int
+	regions     []c05Region
+	backToBack  bool
+	capMode     int // 0, 1: to the end of the arena; 2: exactly len; 3: len + 1..15
+	capExtra    int
+	swap        bool   // c05.msgenc: the message in front of the key
+	refuseFirst bool   // c05.tdec / c05.tenc: the call before (the decoy pass) is handed the complement of a good ciphertext — valid length, refused
+	snap        []byte // image of the arena up to used + guard, taken by c05Arm just before the call
 }
 
 const c05Guard = 48
@@ -256,6 +257,7 @@ func c05Layout(op []string) {
 	c05Lay.capMode = int(h>>2) % 4
 	c05Lay.capExtra = 1 + int(h>>4)%15
 	c05Lay.swap = (h>>8)%2 == 1
+	c05Lay.refuseFirst = (h>>9)%2 == 1
 }
 
 func c05PlaceAt(content []byte, decoy, writable bool) []byte {
@@ -474,6 +476,9 @@ func c05Later(bufs [][]byte, ints ...*big.Int) bool {
 const c05LateChange = "caller-buffer-changed-after-gc"
 
 func c05Exec(op []string) string {
+	if c05IsBatch(op) {
+		return c05Batch(op)
+	}
 	func() {
 		defer func() { _ = recover() }()
 		_ = c05Exec1(op, true)
@@ -597,7 +602,10 @@ func c05Exec1(op []string, decoy bool) string {
 		}
 		// the ciphertext travels: what is decrypted is a copy of it in the caller's (reused) receive buffer
 		ctFull := hexD(ct) // in full: the oracle decrypts it
-		ct = c05Place(1, ct, false)
+		// (for half of the operations the call before — the decoy pass — gets the complement instead: a ciphertext
+		// of valid length that is no message and has to be refused; what that refusal leaves behind meets the
+		// reported pass, no collection in between)
+		ct = c05Place(1, ct, decoy && c05Lay.refuseFirst)
 		ct0 := append([]byte{}, ct...)
 		c05Arm()
 		rt, pan := c05Catch(func() []byte { return ige.DecryptMessageWithTempKeys(ct, n, s) })
@@ -632,12 +640,23 @@ func c05Exec1(op []string, decoy bool) string {
 			return "caller-buffer-retained"
 		}
 		return c05Outcome(ct, nil, pan)
-	case "c05.tdec":
+	case "c05.tdec", "c05.tdecbad":
+		if len(op) != c05Arity[op[0]] {
+			return "bad-op"
+		}
 		nb, sb, pad, answer := arg(0, 1), arg(1, 2), arg(2, 3), arg(3, 4)
 		if len(nb) != 32 || len(sb) != 16 || (20+len(answer)+len(pad))%16 != 0 {
 			return "bad-op"
 		}
-		ct := c05Place(4, c05Conformant(nb, sb, answer, pad), false)
+		msg := c05Conformant(nb, sb, answer, pad)
+		if op[0] == "c05.tdecbad" { // valid length, but not an answer: damaged, random, or made under other nonces
+			if msg = c05Damaged(op[5], nb, sb, pad, answer); msg == nil {
+				return "bad-op"
+			}
+		}
+		// c05.tdec, half of the operations: the call before (the decoy pass) is handed the complement of the
+		// message — valid length, refused — and the reported pass follows it with no collection in between
+		ct := c05Place(4, msg, decoy && op[0] == "c05.tdec" && c05Lay.refuseFirst)
 		ct0 := append([]byte{}, ct...)
 		ctShown := showBytes(ct)
 		if c05Ints[0] == nil || c05Ints[1] == nil {
@@ -696,9 +715,15 @@ func field(out, name string) string {
 }
 
 func c05Judge(op []string, out string) string {
+	if c05IsBatch(op) {
+		return c05JudgeBatch(op, out)
+	}
 	why := c05Judge1(op, out)
 	if why != "" {
 		why += " [every argument is a window into one long-lived caller array that held other contents (the complement) during the call before, see c05Exec / c05Layout]"
+		if (op[0] == "c05.tdec" || op[0] == "c05.tenc") && c05Lay.refuseFirst {
+			why += " [for this operation the call before handed DecryptMessageWithTempKeys the COMPLEMENT of a good ciphertext — valid length, no message, refused — and no collection ran between that call and this one]"
+		}
 	}
 	return why
 }
@@ -834,6 +859,8 @@ func c05Judge1(op []string, out string) string {
 		if want := "ok:" + showBytes(refIGE(key, iv, data, false)); out != want {
 			return "differs from IGE under the temp keys of the definition: want " + clip(want)
 		}
+	case "c05.tdecbad":
+		return c05JudgeBad(op, out)
 	case "c05.tdec":
 		if out == "bad-op" {
 			return ""
@@ -1064,6 +1091,7 @@ func c05Gen(g *G) {
 	}
 	g.Emit("c05.tnopad f011280887c7bb01df0fc4e17830e0b91fbb8be4b2267cb985ae25f33b527253 f011280887c7bb01df0fc4e17830e0b91fbb8be4b2267cb985ae25f33b527253 "+
 		"f78af98ef9d401e298f3eeec1c927312aeb6b4125103bc5cc44bcdf0a15e160d445066ff000000000000000000000000", "temp-nopad-fixture")
+	c05GenBatches(g) // c05par.go: refused inputs of valid length, sequences without a collection, concurrent batches
 }
 
 func init() {
